@@ -96,11 +96,13 @@ int libwifi_get_rsn_info(struct libwifi_rsn_info *info, const unsigned char *tag
         data += sizeof(struct libwifi_cipher_suite);
     }
 
-    // Bounds check and handle the RSN Capabilities field
+    // The RSN Capabilities field is optional: take it only when both of its bytes are present
     if (data > tag_end) {
         return -EINVAL;
     }
-    memcpy(&info->rsn_capabilities, data, sizeof(info->rsn_capabilities));
+    if ((data + sizeof(info->rsn_capabilities)) <= tag_end) {
+        memcpy(&info->rsn_capabilities, data, sizeof(info->rsn_capabilities));
+    }
 
     return 0;
 }
